@@ -59,9 +59,10 @@ static int (*real_fsync)(int);
 static long (*real_syscall)(long, ...);
 static ssize_t (*real_getrandom)(void *, size_t, unsigned int);
 
-static void init(void) {
-    if (inited) return;
-    inited = 1;
+// Idempotent; `inited` is published only after every pointer is resolved, so a thread that races with the first
+// initialisation either runs it again itself (harmless) or sees fully resolved pointers - never a NULL pointer.
+__attribute__((constructor)) static void init(void) {
+    if (__atomic_load_n(&inited, __ATOMIC_ACQUIRE)) return;
     real_write = dlsym(RTLD_NEXT, "write");
     real_writev = dlsym(RTLD_NEXT, "writev");
     real_read = dlsym(RTLD_NEXT, "read");
@@ -82,14 +83,14 @@ static void init(void) {
     const char *t = getenv("FAULTFS_TRACE");
     if (t && *t) { trace_prefix = strdup(t); trace_len = strlen(t); }
     const char *l = getenv("FAULTFS_LOG");
-    if (l && *l) {
+    if (l && *l && log_fd < 0) {
         int fd = real_open64 ? real_open64(l, O_WRONLY | O_CREAT | O_APPEND | O_CLOEXEC, 0644) : -1;
         if (fd >= 0) { log_fd = fcntl(fd, F_DUPFD_CLOEXEC, 900); real_close(fd); }
     }
     const char *s = getenv("VERIF_DETRAND");
     if (s && *s) { detrand = 1; detseed = strtoull(s, NULL, 10); }
     const char *p = getenv("FAULTFS_PLAN");
-    if (p && *p) {
+    if (p && *p && plan_n == 0) {
         char *copy = strdup(p), *save = NULL;
         for (char *tok = strtok_r(copy, ",", &save); tok && plan_n < MAXPLAN; tok = strtok_r(NULL, ",", &save)) {
             char *colon = strchr(tok, ':');
@@ -103,6 +104,7 @@ static void init(void) {
         }
         free(copy);
     }
+    __atomic_store_n(&inited, 1, __ATOMIC_RELEASE);
 }
 
 static void logline(const char *fmt, ...) {
